@@ -127,6 +127,9 @@ FIT_INJ = {
     "fit_descriptions_too_long": (lambda i, n: i == 0, lambda data, fd, i, n: (data, fd + [None])),
     "fit_description_without_method": (lambda i, n: True, lambda data, fd, i, n: (data, fd[:i] + [{"weights": None}] + fd[i + 1:])),
     "unknown_fit_method": (lambda i, n: True, lambda data, fd, i, n: (data, fd[:i] + [{"method": "least_absolute"}] + fd[i + 1:])),
+    # near misses of the valid names (prefixes, substrings, the empty string, trailing characters)
+    **{f"unknown_fit_method_{nm!r}": (lambda i, n: True, (lambda data, fd, i, n, nm=nm: (data, fd[:i] + [{"method": nm}] + fd[i + 1:])))
+       for nm in ("wls", "ls", "sq", "", "ml", "mlee", "lsqq", "lsq ", "w")},
     # only meaningful where least squares is implemented (exponentiated Weibull carrier), see run_case
     "unknown_weight_keyword": (lambda i, n: True, lambda data, fd, i, n: (data, fd[:i] + [{"method": "wlsq", "weights": "quartic"}] + fd[i + 1:])),
     "scalar_weights": (lambda i, n: True, lambda data, fd, i, n: (data, fd[:i] + [{"method": "wlsq", "weights": 2.0}] + fd[i + 1:])),
@@ -332,13 +335,16 @@ def _ew_weights(weights):
     return run
 
 
-def _unknown_method_dist():
-    from virocon import WeibullDistribution
-    d = WeibullDistribution()
-    x = np.random.RandomState(3).weibull(1.5, 200) + 0.1
-    _ctl(lambda: WeibullDistribution().fit(x, method="mle"))
-    d.fit(x, method="moments")
-    return d.parameters
+def _unknown_method_dist(name="moments", ew=False):
+    def run():
+        from virocon import ExponentiatedWeibullDistribution, WeibullDistribution
+        cls = ExponentiatedWeibullDistribution if ew else WeibullDistribution
+        d = cls()
+        x = np.random.RandomState(3).weibull(1.5, 200) + 0.1
+        _ctl(lambda: cls().fit(x, method="mle"))
+        d.fit(x, method=name)
+        return d.parameters
+    return run
 
 
 def _eval_nd(method, n_dim, pos, value):
@@ -386,14 +392,15 @@ MISC = {
     "points_slicer_too_few_intervals": _slicer(PointsPerIntervalSlicer, (25,), {"min_n_points": 1, "min_n_intervals": 4}),
     "ew_unknown_weight_keyword": _ew_weights("quartic"),
     "ew_scalar_weights": _ew_weights(2.0),
-    "distribution_unknown_fit_method": _unknown_method_dist,
+    "distribution_unknown_fit_method": _unknown_method_dist(),
+    **{f"ew_unknown_fit_method_{nm!r}": _unknown_method_dist(nm, True) for nm in ("wls", "ls", "sq", "", "ml", "lsqq", "moments")},
 }
 
 
 def main(ctx):
     ctx.rule = ("fault enumeration: 12 description injectors x every applicable position x n_dim 1..4 x every family as carrier "
                 "(singles); all ordered pairs of description injectors at all position pairs for n_dim <= 3 with three carriers; "
-                "8 fit-call injectors x positions x n_dim 1..3 x carriers whose control fit succeeds; 60 further malformations "
+                "8 fit-call injector classes (unknown method with 10 near-miss names) x positions x n_dim 1..3 x carriers whose control fit succeeds; 60 further malformations "
                 "(HDC limits/deltas, non-finite points, 3-D models for 2-D contours, non-models, slicer keywords/reference "
                 "keywords/types, too few intervals, weight keywords, fit methods), each with its control. evaluations = "
                 "malformed calls; each is non-trivial (its control passes).")
